@@ -8,6 +8,7 @@ import Macaroon.Auth.Discharge
 import Macaroon.Caveat.Spec
 import Macaroon.Conc.RWMutex
 import Macaroon.Generated.BundleLocks
+import Driver.OpsWire
 
 namespace Driver
 open Macaroon
@@ -65,7 +66,7 @@ def evalOp : Sx → Option String
 def evalLine (line : String) : String :=
   match Sx.parse line with
   | none => "bad-parse"
-  | some sx => (evalOp sx).getD "bad-op"
+  | some sx => ((evalOp sx) <|> (evalOpWire sx)).getD "bad-op"
 
 partial def loop (h : IO.FS.Stream) (out : IO.FS.Stream) : IO Unit := do
   let line ← h.getLine
